@@ -243,6 +243,29 @@ pub fn handle(op: &str, a: &[&str]) -> Option<Resp> {
             }
         }
     }
+    // control file: paragraphs are assigned by their distinguishing fields -- a paragraph with a
+    // Package field is a binary paragraph (whatever else it has), one without Package but with Source
+    // is the source paragraph; exactly one source paragraph, no paragraph of neither kind
+    if kind == "control" {
+        if let Ok(d) = deb822_lossless::Deb822::from_str(&t) {
+            let paras: Vec<deb822_lossless::Paragraph> = d.paragraphs().collect();
+            let nbin = paras.iter().filter(|p| p.get("Package").is_some()).count();
+            let nsrc = paras.iter().filter(|p| p.get("Package").is_none() && p.get("Source").is_some()).count();
+            let nnone = paras.len() - nbin - nsrc;
+            match &r1 {
+                Ok(v1) => {
+                    let got_bin = v1.structs.iter().filter(|s| s.0 == "control.Binary").count();
+                    let got_src = v1.structs.iter().filter(|s| s.0 == "control.Source").count();
+                    if fail.is_none() && (nsrc != 1 || nnone != 0) {
+                        fail = Some(format!("accepted although the text has {} source paragraph(s) and {} paragraph(s) of neither kind", nsrc, nnone));
+                    } else if fail.is_none() && (got_bin != nbin || got_src != 1) {
+                        fail = Some(format!("paragraph roles: {} binary / {} source in the value, {} / {} by the distinguishing fields", got_bin, got_src, nbin, nsrc));
+                    }
+                }
+                Err(_) => {}
+            }
+        }
+    }
     // DEP-3 header: the typed author / description are what the lossless view of the same text
     // shows (Author, else From; Description, else Subject) -- on well-formed input
     if kind == "dep3" {
